@@ -15,7 +15,7 @@ from mc.explore import words
 PROPERTY = "C73"
 LEVEL = "model_checking"
 TECHNIQUE = "explicit-state exploration of tracked execution histories on default.qubit against an independent call counter wrapped around the device entry points"
-LEVEL_TEXT = ("All histories of length <=3 (thorough 4) over 17 events (QNode calls, gradients via three methods, batches, direct device derivative "
+LEVEL_TEXT = ("All histories of length <=3 (thorough 4) over 18 events (QNode calls, gradients via three methods, batches, direct device derivative "
               "calls, reset, tracker enter/exit) x persistent in {False, True} are executed; tracker.totals and the ordered tracker.history must "
               "equal an independent count of circuits, batches, shots, hardware executions and derivative calls; nothing may be counted while inactive.")
 LEVEL_NOTE = ("Reference for 'executions' and 'shots' per circuit: number of groups of commuting measurements x broadcast size (x total shots), written "
@@ -23,7 +23,7 @@ LEVEL_NOTE = ("Reference for 'executions' and 'shots' per circuit: number of gro
 DESIGN_REF = "5.11 C73"
 RULE = "history = word over the event alphabet; non-trivial = tracker active during at least one device call"
 
-EVENTS = ["enter", "exit", "reset", "q_an", "q_s7", "q_sv", "q_nc", "q_bc", "g_ps", "g_adj", "g_bp", "ex1", "ex3", "d_ex", "d_der", "d_exder", "d_vjp", "d_exvjp", "d_jvp"]
+EVENTS = ["enter", "exit", "reset", "q_an", "q_s7", "q_sv", "q_nc", "q_bc", "g_ps", "g_adj", "g_bp", "ex1", "ex3", "exm", "d_ex", "d_der", "d_exder", "d_vjp", "d_exvjp", "d_jvp"]
 
 
 def _tapes(k, shots=None):
@@ -169,6 +169,9 @@ def check(spec):
             qp.execute(_tapes(1), dev, diff_method=None)
         elif ev == "ex3":
             qp.execute(_tapes(3, shots=4), dev, diff_method=None)
+        elif ev == "exm":  # one batch mixing a finite-shot tape with analytic ones (and a shot vector last)
+            ts = _tapes(1, shots=4) + _tapes(2) + _tapes(1, shots=(2, 3)) + _tapes(1)
+            dev.execute(tuple(ts))
         elif ev == "d_ex":
             dev.execute(_tapes(1)[0])
         elif ev == "d_der":
